@@ -55,6 +55,9 @@ ASSUMPTIONS = [
     "schema F: classes with their own truthiness (__len__ backed by a mutable attribute, __bool__); instances are "
     "falsy at some points of a history, as owners and as elements. Truthiness is irrelevant to the closure (an "
     "instance is just an object), so the specification ignores it; the code's truthiness test is the quirk of F-C15-2",
+    "a collection is assigned as an ORDERED iterable (a tuple for a set-valued field): the order in which the setter "
+    "walks the value decides which elements arrive by assertion and which by inference, and the iteration order of a "
+    "Python set of the repository's classes (hashed by name) is not reproducible",
     "instances that die during a history take part in no relation and play no role (nothing else can die: fields hold "
     "strong references)",
     "inverses always find their field (no ValueError), objects are truthy and compare by "
@@ -198,6 +201,53 @@ _FIXED = [
 ]
 
 
+def _reassign_history(rng, d: dict, tag: str):
+    """a collection field is assigned twice (or more): the later value drops elements asserted earlier — repetitions
+    in the assigned list, the owner itself as an element, transitive fields with relations asserted around it"""
+    objs = _world(rng, tag)
+    by_cls: Dict[int, List[int]] = {}
+    for i, (c, _) in enumerate(objs):
+        by_cls.setdefault(c, []).append(i)
+    cont = [f for f in range(len(d["fields"])) if d["kinds"][f] != "single"]
+    trans = [f for f in cont if d["fields"][f][1] in ("sub_organization_of", "near", "anc", "parent", "desc",
+                                                       "within")]
+    for _ in range(20):
+        f = rng.choice(trans) if trans and rng.random() < 0.6 else rng.choice(cont)
+        srcs = [o for c in d["applies"][f] for o in by_cls.get(c, [])]
+        tgts = [o for tc in d["targets"][f] for o in by_cls.get(tc, [])]
+        if srcs and tgts:
+            break
+    else:
+        return None
+    s_ = rng.choice(srcs)
+    pool = tgts + ([s_] if s_ in tgts else [])
+
+    def value(k):
+        return [rng.choice(pool) for _ in range(k)]
+
+    done = set()
+    ops = _ops(rng, d, objs, rng.randint(0, 2), [f], None, done)
+    if f in trans and s_ in tgts and rng.random() < 0.7:
+        # cycles through the owner: back edges x -> s asserted first, then s is assigned a value that holds s itself
+        # and the x's in an order of its own (which of them arrive by assertion and which by inference depends on it)
+        xs = rng.sample([o for o in srcs if o != s_ and o in tgts], min(rng.randint(1, 2), len([o for o in srcs if o != s_ and o in tgts]))) \
+            if any(o != s_ and o in tgts for o in srcs) else []
+        for x in xs:
+            ops.append(f"(add {f} {x} {s_})")
+        first = [s_] + xs + ([rng.choice(xs)] if xs and rng.random() < 0.5 else [])
+        rng.shuffle(first)
+    else:
+        first = value(rng.randint(1, 3))
+    ops.append(f"(assign {f} {s_} {' '.join(map(str, first))})")
+    ops += _ops(rng, d, objs, rng.randint(0, 1), [f], None, done)
+    second = [x for x in first if rng.random() < 0.5] + value(rng.randint(0, 1))
+    if not second:
+        second = value(1)
+    ops.append(f"(assign {f} {s_} {' '.join(map(str, second))})")
+    ops += _ops(rng, d, objs, rng.randint(0, 1), [f], None, done)
+    return objs, ops
+
+
 def _churn_history(rng, d: dict, tag: str, maxlen: int):
     """assertions, then short-lived instances WITHOUT relations are created and discarded, each followed by a new
     instance (CPython hands it the freed address), the new ones take part in assertions, the dead nodes are swept from the symbol graph (what
@@ -245,6 +295,17 @@ def generate(rng, tier, n):
                     rng.shuffle(seg)
                 ops += seg
             cases.append(Case(_line(d, objs, ops), ("schema-" + tag, "instance-churn"), "random"))
+    for i in range(max(45, n // 6)):
+        tag = ("U", "D", "F")[i % 3]
+        d = _desc(tag)
+        r = _reassign_history(rng, d, tag)
+        if r is None:
+            continue
+        objs, ops = r
+        cases.append(Case(_line(d, objs, ops), ("schema-" + tag, "reassignment"), "random"))
+        p = ops[:]
+        rng.shuffle(p)
+        cases.append(Case(_line(d, objs, p), ("schema-" + tag, "reassignment", "order-permuted"), "random"))
     for i in range(n):
         tag = ("U", "U", "D", "D", "H", "D", "H", "F", "F")[i % 9]
         d = _desc(tag)
